@@ -689,6 +689,7 @@ static void* wd_main(void* arg) {
     if (g_periodic) g_periodic();
     if (g_runtime_mode && vp_cfg.mode != VP_MODE_NOHOOK && (++wd_round & 1) == 0) check_blocked_kernel_threads();
     if (g_runtime_mode && vp_cfg.mode != VP_MODE_NOHOOK && (wd_round % 24) == 0) vp_ghost_check_starved();
+    if (g_runtime_mode && vp_cfg.mode != VP_MODE_NOHOOK && (wd_round % 24) == 12) vp_ghost_check_overdue_sleepers();
     // once a violation is on record the verdict is decided; give the harness a moment to end normally, then stop
     // (this only bounds how long a wedged process lingers, it never creates or changes a verdict)
     if (vp_violation_count() > 0 && ++viol_linger > 600) vp_finish();
